@@ -303,6 +303,66 @@ def body(run: Run, replay):
                     run.violation("fdepsd parallel output `%s` is bit-identical to the serial result when the frequency vector is %s" % (nm, np.dtype(dt).name),
                                   {"fn": "fdepsd", "resp": respt, "freq_dtype": np.dtype(dt).name}, {"fn": "fdepsd", "rep": rep})
                     break
+    # ---- the decision whether to use a pool and with how many workers (spec Decide / DecideLaws) ---------------------------
+    res = tlc.run("ParPool", "MC_ParPool_q3.cfg", workers=4, timeout=300)
+    table = res.tagged("DECIDE")
+    if res.violation or not table:
+        run.violation("TLC: %s on the pool model (decision table)" % (res.violation or "no DECIDE export"), {"tlc": res.error_text()}, {"where": "model"})
+        return
+    import multiprocessing as _mp
+    real_count = _mp.cpu_count
+    real_pool = _mp.Pool
+    asked = []
+
+    def pool_spy(*a, **k):          # what srs asks of multiprocessing: the number of worker processes
+        asked.append(k.get("processes", a[0] if a else None))
+        return real_pool(*a, **k)
+    rows = sorted(table[0][0], key=repr)
+    pick = random.Random(run.seed + 31)
+    sigs = {sz: rng.standard_normal(sz) for sz in (50000, 50001)}
+    try:
+        for g, d in rows:
+            par, nf, size, gr, ncpu, mx = g
+            if ncpu > real_count() or (quick and pick.random() > 0.2):
+                continue
+            _mp.cpu_count = lambda n_=ncpu: n_          # srs asks multiprocessing for the processor count
+            _mp.Pool = pool_spy
+            del asked[:]
+            freqd = np.array([4.0, 9.0, 21.0])[:nf]
+            ts = Turnstile(nf, None)
+            srsmod._verif_hook = ts
+            try:
+                out = srsmod.srs(sigs[size], 1000.0, freqd, 15.0, parallel=par, maxcpu=(mx or None), getresp=gr)
+            except Exception as ex:
+                run.violation("srs(parallel=%r, maxcpu=%r) raised %r" % (par, mx or None, ex), {"grid": list(g)}, {"fn": "srs", "part": "decide"})
+                continue
+            finally:
+                srsmod._verif_hook = None
+            ev = ts.events()
+            pids = {p_ for p_, _ in ev}
+            run.case(("decide",) + tuple(g), part="pool decision table")
+            msg = None
+            if d["mode"] == "no" and ev:
+                msg = "worker events were recorded although the decision table says serial"
+            elif d["mode"] == "yes" and (sorted(j for _, j in ev) != list(range(nf)) or os.getpid() in pids):
+                msg = "the tasks were not all run by pool workers although the decision table says parallel (events %r)" % (ev,)
+            elif d["mode"] == "yes" and asked != [d["w"]]:
+                msg = "a pool of %r worker processes was requested, the decision table says %d" % (asked, d["w"])
+            elif d["mode"] == "no" and asked:
+                msg = "a pool was created although the decision table says serial"
+            elif d["mode"] == "yes" and len(pids) > d["w"]:
+                msg = "%d worker processes took tasks, the decision table allows %d" % (len(pids), d["w"])
+            if msg is None:
+                ref = srsmod.srs(sigs[size], 1000.0, freqd, 15.0, parallel="no", getresp=gr)
+                if [a for _, a in flat(np, out)] != [b for _, b in flat(np, ref)]:
+                    msg = "the result differs from the serial one"
+            if msg:
+                run.violation("srs(parallel=%r, %d frequencies, %d values, getresp=%s, %d processors, maxcpu=%r): %s" % (
+                    par, nf, size, gr, ncpu, mx or None, msg), {"grid": list(g), "decision": d}, {"fn": "srs", "part": "decide"})
+            run.trace_validated()
+    finally:
+        _mp.cpu_count = real_count
+        _mp.Pool = real_pool
     if not quick:
         orders, lang = model(run, "MC_ParPool_t2.cfg")   # LF=6, W=4: model only + natural runs
         if orders is not None:
